@@ -12,11 +12,13 @@ From Curies.model Require Export Query Reconcile.
 
 Inductive pv := PNone | PBool (b : bool) | PStr (s : str) | PTup (l : list pv) | PList (l : list pv) | PRec (r : record)
 | PDict (d : list (str * pv))           (* a dict with string keys, in insertion order *)
-| PNewConv (rs : list record).          (* the result of Converter(records): the constructor itself is Conv.mk_conv, not translated *)
+| PNewConv (rs : list record)
+| PInt (n : N).                          (* a non-negative integer: lengths and the constants they are compared with *)          (* the result of Converter(records): the constructor itself is Conv.mk_conv, not translated *)
 
 Inductive sdict := DPrefixMap | DSynonymToPrefix | DReversePrefixMap | DPatternMap.
 Inductive attr := APrefix | AIdentifier | AUriPrefix | APrefixSynonyms | AUriPrefixSynonyms | APattern | AAllPrefixes | AAllUriPrefixes.
 
+Inductive cmpop := CLt | CLe | CGt | CGe.
 Inductive pexp :=
 | EVar (x : nat) | ENone | EBool (b : bool) | EStr (s : str)
 | ESelfDelim | ESelfRecords
@@ -36,6 +38,9 @@ Inductive pexp :=
 | EDictLit (keys : list str) (vals : pexps)  (* {"k1": e1, ...} with constant string keys *)
 | ESorted (e : pexp)                       (* sorted(<list of str>) *)
 | ECall (f : nat) (args : pexps)           (* self.f(...) or a module-level f(...): arguments in the callee's parameter order *)
+| EInt (n : N) | ELen (e : pexp)
+| ECmp (op : cmpop) (a b : pexp)           (* < <= > >= on integers *)
+| EStartsWith (s p : pexp) | EEndsWith (s p : pexp)
 | ESubscr (d k : pexp)                     (* d[k] for a local dict d *)
 | ESetUpd (l add : pexp) (remove : pexps)  (* sorted(set(l).union({add}).difference({remove...})) *)
 | EKeysInterValues (d : pexp)              (* set(d).intersection(d.values()) *)
@@ -84,7 +89,18 @@ Definition truthy (v : pv) : bool :=
   | PTup [] => false | PTup _ => true | PList [] => false | PList _ => true | PRec _ => true
   | PDict [] => false | PDict _ => true
   | PNewConv _ => true
+  | PInt n => negb (N.eqb n 0)
   end.
+Definition py_len (v : pv) : option N :=
+  match v with
+  | PStr s => Some (N.of_nat (length s))
+  | PTup l | PList l => Some (N.of_nat (length l))
+  | PDict d => Some (N.of_nat (length d))
+  | _ => None
+  end.
+Definition cmp_n (op : cmpop) (a b : N) : bool :=
+  match op with CLt => N.ltb a b | CLe => N.leb a b | CGt => N.ltb b a | CGe => N.leb b a end.
+Definition suffixb (p s : str) : bool := prefixb (rev p) (rev s).
 Fixpoint as_recs_pv (l : list pv) : option (list record) :=
   match l with
   | [] => Some []
@@ -133,6 +149,8 @@ Definition simple_eq (a b : pv) : option bool :=
   | PStr x, PStr y => Some (str_eqb x y)
   | PNone, PNone => Some true
   | PBool x, PBool y => Some (Bool.eqb x y)
+  | PInt x, PInt y => Some (N.eqb x y)
+  | PInt _, PStr _ | PStr _, PInt _ | PInt _, PNone | PNone, PInt _ => Some false
   | PStr _, PNone | PNone, PStr _ | PStr _, PBool _ | PBool _, PStr _ | PNone, PBool _ | PBool _, PNone => Some false
   | _, _ => None
   end.
@@ -231,6 +249,10 @@ Fixpoint eval (e : pexp) : eres :=
       | EV va => match eval b with
                  | EV (PList l) | EV (PTup l) => match contains va l with Some r => EV (PBool r) | None => ES end
                  | EV (PDict d) => match va with PStr k => EV (PBool (dhas k d)) | PList _ => EX ETypeError | _ => EV (PBool false) end
+                 | EV (PStr hay) => match va with
+                                    | PStr [] => EV (PBool true)
+                                    | PStr needle => EV (PBool (Str.contains needle hay))
+                                    | _ => EX ETypeError end
                  | EV _ => ES
                  | r => r end
       | r => r end
@@ -256,6 +278,26 @@ Fixpoint eval (e : pexp) : eres :=
       match eval e with
       | EV (PList l) | EV (PTup l) => match as_strs_pv l with Some ss => EV (pstrs (sort_str ss)) | None => ES end
       | EV _ => ES
+      | r => r end
+  | EInt n => EV (PInt n)
+  | ELen e => match eval e with EV v => match py_len v with Some n => EV (PInt n) | None => EX ETypeError end | r => r end
+  | ECmp op a b =>
+      match eval a with
+      | EV va => match eval b with
+                 | EV vb => match va, vb with PInt x, PInt y => EV (PBool (cmp_n op x y)) | _, _ => EX ETypeError end
+                 | r => r end
+      | r => r end
+  | EStartsWith s p =>
+      match eval s with
+      | EV vs => match eval p with
+                 | EV vp => match vs, vp with PStr x, PStr y => EV (PBool (prefixb y x)) | _, _ => ES end
+                 | r => r end
+      | r => r end
+  | EEndsWith s p =>
+      match eval s with
+      | EV vs => match eval p with
+                 | EV vp => match vs, vp with PStr x, PStr y => EV (PBool (suffixb y x)) | _, _ => ES end
+                 | r => r end
       | r => r end
   | ESubscr d k =>
       match eval d with
